@@ -92,6 +92,7 @@ Proof. exact (block_decode_canonical_except_l bs b). Qed.
 (* the exception set of blocks is exactly the transaction-level F2 class lifted (block_has_nil_list = existsb tx_has_nil_list) *)
 Theorem block_decode_canonical_iff bs b : go_decode_block bs = Some b -> (go_reencode_block b = bs <-> block_has_nil_list b = false).
 Proof. exact (block_decode_canonical_iff_l bs b). Qed.
+(* remark (definitional, by reflexivity) *)
 Theorem block_exception_is_lifted_tx_class b : block_has_nil_list b = existsb tx_has_nil_list (b_txs b).
 Proof. reflexivity. Qed.
 (* Block.Size(): the value cached by Block.DecodeRLP / RawBlock.DecodeRLP equals a fresh Size() and the input length, F2 or not *)
@@ -148,6 +149,7 @@ Proof. exact (go_marshal_injective_l t1 t2). Qed.
 Theorem header_signing_any_injective h1 h2 : wfp c_header h1 -> wfp c_header h2 ->
   header_signing_bytes_any h1 = header_signing_bytes_any h2 -> header_signed_view h1 = header_signed_view h2.
 Proof. exact (header_signing_any_injective_l h1 h2). Qed.
+(* remark (definitional): unfolds header_signed_view *)
 Theorem header_view_with_base_fee h : wfp c_header h -> x_basefee (h_ext h) <> None -> header_signed_view h = header_sign_tuple h.
 Proof. exact (view_basefee h). Qed.
 
@@ -158,11 +160,41 @@ Theorem tx_reencode_same_object b t : go_decode_tx b = Some t ->
   go_signing_tx (norm_tx t) = go_signing_tx t /\ go_marshal_tx (norm_tx t) = go_marshal_tx t.
 Proof. exact (tx_reencode_same_object_l b t). Qed.
 
-(* the final corollaries, with Blake2b as an opaque function H and its collision-freeness as the NAMED hypothesis H_inj.
-   Transaction.ID() = H(signingHash ++ origin) only when the signature recovers (origin = Some o; otherwise the zero id, for
-   which nothing is claimed); Header.ID() additionally overwrites the first four bytes of H(signingHash ++ signer) with the
-   block number: header_id_binds is about the hash before that overwrite (the real id needs collision-freeness of the
-   remaining 28 bytes). *)
+(* id / hash corollaries, with Blake2b as an opaque function H.  Two forms:
+   (a) Section IdExtract — UNCONDITIONAL: equal signing hash / id / hash => equal signed fields OR an explicit collision of H
+       (two different byte strings with the same H value).  This is the form that is meaningful for a real hash.
+   (b) Section IdBinding — under the named hypothesis H_inj (H injective on ALL byte strings).  No fixed-length hash satisfies
+       H_inj (it is satisfiable only by identity-like functions, cf. ex_id_binding): these corollaries describe an IDEALISED
+       collision-free H and are (a) with the collision disjunct assumed away.
+   What is and is not bound.  Transaction.ID() = H(signingHash ++ origin) binds every signed field and the origin ADDRESS, not the
+   signature bytes (two signatures recovering the same address give the same id; Hash() binds the signature bytes), and only when
+   the signature recovers (origin = Some o; otherwise ID() is the zero id and nothing is claimed).  Header.ID() =
+   number(4 bytes) ++ H(signingHash ++ signer)[4:] binds all fields but the signature, the extension only with a base fee, and the
+   signer ADDRESS — not the signature bytes (an (r, n-s) twin recovering the same signer has the same id) — and the theorems are about
+   the hash before the four-byte number overwrite (the real id needs collision-resistance of the remaining 28 bytes). *)
+Section IdExtract.
+  Variable H : bytes -> bytes.
+  Theorem tx_equal_signing_hash_extracts t1 t2 : wfp c_tx t1 -> wfp c_tx t2 ->
+    go_tx_signing_hash H t1 = go_tx_signing_hash H t2 -> signed_part t1 = signed_part t2 \/ collision H.
+  Proof. exact (tx_signing_hash_extract_l H t1 t2). Qed.
+  Theorem tx_equal_id_extracts t1 t2 o1 o2 : wfp c_tx t1 -> wfp c_tx t2 -> length o1 = length o2 ->
+    go_tx_id H t1 (Some o1) = go_tx_id H t2 (Some o2) -> signed_part t1 = signed_part t2 \/ collision H.
+  Proof. exact (tx_id_extract_l H t1 t2 o1 o2). Qed.
+  Theorem tx_equal_hash_extracts t1 t2 : wfp c_tx t1 -> wfp c_tx t2 ->
+    go_tx_hash H t1 = go_tx_hash H t2 -> norm_tx t1 = norm_tx t2 \/ collision H.
+  Proof. exact (tx_hash_extract_l H t1 t2). Qed.
+  Theorem header_equal_signing_hash_extracts h1 h2 : wfp c_header h1 -> wfp c_header h2 ->
+    go_header_signing_hash H h1 = go_header_signing_hash H h2 -> header_signed_view h1 = header_signed_view h2 \/ collision H.
+  Proof. exact (header_signing_hash_extract_l H h1 h2). Qed.
+  Theorem header_equal_id_hash_extracts h1 h2 s1 s2 : wfp c_header h1 -> wfp c_header h2 -> length s1 = length s2 ->
+    go_header_id_hash H h1 s1 = go_header_id_hash H h2 s2 -> header_signed_view h1 = header_signed_view h2 \/ collision H.
+  Proof. exact (header_id_extract_l H h1 h2 s1 s2). Qed.
+  (* the two F2 wire forms of one Go object share signing hash, id and hash for every H *)
+  Theorem f2_pair_same_id b t o : go_decode_tx b = Some t ->
+    exists t', go_decode_tx (go_reencode_tx t) = Some t' /\ go_tx_id H t' o = go_tx_id H t o /\ go_tx_hash H t' = go_tx_hash H t.
+  Proof. exact (f2_pair_same_id_l H b t o). Qed.
+End IdExtract.
+
 Section IdBinding.
   Variable H : bytes -> bytes.
   Hypothesis H_inj : forall a b, H a = H b -> a = b.
@@ -185,10 +217,13 @@ End IdBinding.
 
 (* roots: the tree trie.DeriveRoot builds determines the ordered list (trie half: Trie/DeriveRoot.v derive_root_injective_bytes,
    i.e. C06's canonical-trie theorem; codec half: the keys rlp(i) are injective byte strings, the values determine the items).
-   The root is the hash of that tree; "equal roots => equal trees" is the collision-freeness of the node hash (C06). *)
-Theorem derive_tree_injective vals1 vals2 : lenN vals1 < u64max1 -> lenN vals2 < u64max1 ->
-  go_derive_tree vals1 = go_derive_tree vals2 -> vals1 = vals2.
-Proof. exact (derive_tree_injective_l vals1 vals2). Qed.
+   The root is the hash of that tree; "equal roots => equal trees" (collision-resistance of the node hash) is NOT part of these
+   theorems: they are tree-level statements. *)
+(* go_derive_tree inserts and never deletes, whereas Go's trie.Update(k, []) deletes: the model is DeriveRoot only for non-empty
+   values, hence the premise (MarshalBinary forms are never empty, so the two corollaries below need no such premise) *)
+Theorem derive_tree_injective vals1 vals2 : Forall (fun v => v <> []) vals1 -> Forall (fun v => v <> []) vals2 ->
+  lenN vals1 < u64max1 -> lenN vals2 < u64max1 -> go_derive_tree vals1 = go_derive_tree vals2 -> vals1 = vals2.
+Proof. intros _ _. exact (derive_tree_injective_l vals1 vals2). Qed.
 Theorem txs_root_commits_to_ordered_txs l1 l2 : Forall (wfp c_tx) l1 -> Forall (wfp c_tx) l2 -> lenN l1 < u64max1 -> lenN l2 < u64max1 ->
   go_derive_tree (map go_marshal_tx l1) = go_derive_tree (map go_marshal_tx l2) -> map norm_tx l1 = map norm_tx l2.
 Proof. exact (txs_root_tree_binds_l l1 l2). Qed.
@@ -270,6 +305,13 @@ Proof.
   exists (enc c_block (mkBlock ex_header [mkTx false 0 0 0 [] 0 0 0 0 NilList 0 (mkRes 0 []) []])). eexists.
   split; [vm_compute; reflexivity|]. split; [reflexivity|]. vm_compute. discriminate.
 Qed.
+(* the concrete F2 pair (f2_depends_witness and its re-encoding) decodes to two trees with one id, for every H and origin *)
+Example ex_f2_pair_same_id (H : bytes -> bytes) o : exists t t', go_decode_tx f2_depends_witness = Some t /\
+  go_reencode_tx t <> f2_depends_witness /\ go_decode_tx (go_reencode_tx t) = Some t' /\ go_tx_id H t' o = go_tx_id H t o.
+Proof.
+  destruct tx_nil_ptr_refuted as [t [Hd [_ [_ Hn]]]]. destruct (f2_pair_same_id H _ t o Hd) as [t' [H1 [H2 _]]].
+  exists t, t'. repeat split; assumption.
+Qed.
 (* the id-binding hypotheses are satisfiable: an injective toy hash and two transactions differing in one signed field *)
 Example ex_id_binding :
   let H := fun b : bytes => b in
@@ -293,6 +335,12 @@ Print Assumptions tx_decode_canonical_statement_refuted.
 Print Assumptions receipt_unmarshal_canonical.
 Print Assumptions receipt_unmarshal_roundtrip.
 Print Assumptions tx_reencode_same_object.
+Print Assumptions tx_equal_signing_hash_extracts.
+Print Assumptions tx_equal_id_extracts.
+Print Assumptions tx_equal_hash_extracts.
+Print Assumptions header_equal_signing_hash_extracts.
+Print Assumptions header_equal_id_hash_extracts.
+Print Assumptions f2_pair_same_id.
 Print Assumptions go_signing_injective.
 Print Assumptions go_marshal_injective.
 Print Assumptions header_signing_any_injective.
